@@ -117,6 +117,15 @@ func (s *Server) step() bool {
 	return s.faults[s.prim]
 }
 
+// stepCtx: a call made with a context that is already done fails like any other failing
+// call (a request whose deadline has passed: the driver does not reach the server; a
+// Commit or Rollback that fails this way still ends the transaction - the driver gives the
+// connection up).
+func (s *Server) stepCtx(ctx context.Context) bool {
+	planned := s.step()
+	return planned || ctx.Err() != nil
+}
+
 // Committed returns a copy of the committed value (independent reader).
 func (s *Server) Committed(key []byte) ([]byte, bool) {
 	s.mu.Lock()
@@ -180,7 +189,7 @@ func (c *Conn) BeginTx(ctx context.Context, opts pgx.TxOptions) (pgx.Tx, error) 
 		s.logf("begin", 0, false, "closed")
 		return nil, errors.New("pgfake: closed pool")
 	}
-	if s.step() {
+	if s.stepCtx(ctx) {
 		s.logf("begin", 0, false, "injected")
 		return nil, ErrInjected
 	}
@@ -228,7 +237,7 @@ func (t *Tx) Commit(ctx context.Context) error {
 		s.logf("commit", t.id, false, "closed")
 		return pgx.ErrTxClosed
 	}
-	if s.step() {
+	if s.stepCtx(ctx) {
 		t.end(false)
 		s.logf("commit", t.id, false, "injected")
 		return ErrInjected
@@ -251,7 +260,7 @@ func (t *Tx) Rollback(ctx context.Context) error {
 		s.logf("rollback", t.id, false, "closed")
 		return pgx.ErrTxClosed
 	}
-	fail := s.step()
+	fail := s.stepCtx(ctx)
 	t.end(false)
 	if fail {
 		s.logf("rollback", t.id, false, "injected")
@@ -272,14 +281,14 @@ func asBytes(a any) ([]byte, bool) {
 }
 
 // usable checks the transaction state before a statement.
-func (t *Tx) usable(op string) error {
+func (t *Tx) usable(ctx context.Context, op string) error {
 	s := t.srv
 	if t.done {
 		s.Misuse = append(s.Misuse, fmt.Sprintf("%s on ended transaction tx%d", op, t.id))
 		s.logf(op, t.id, false, "closed")
 		return pgx.ErrTxClosed
 	}
-	if s.step() {
+	if s.stepCtx(ctx) {
 		t.aborted = !s.Lenient
 		s.logf(op, t.id, false, "injected")
 		return ErrInjected
@@ -295,7 +304,7 @@ func (t *Tx) Exec(ctx context.Context, sql string, args ...any) (pgconn.CommandT
 	s := t.srv
 	s.mu.Lock()
 	defer s.mu.Unlock()
-	if err := t.usable("exec"); err != nil {
+	if err := t.usable(ctx, "exec"); err != nil {
 		return pgconn.CommandTag{}, err
 	}
 	q := strings.TrimSpace(sql)
@@ -334,7 +343,7 @@ func (t *Tx) Query(ctx context.Context, sql string, args ...any) (pgx.Rows, erro
 	s := t.srv
 	s.mu.Lock()
 	defer s.mu.Unlock()
-	if err := t.usable("query"); err != nil {
+	if err := t.usable(ctx, "query"); err != nil {
 		return nil, err
 	}
 	q := strings.TrimSpace(sql)
